@@ -6,6 +6,14 @@ prop=${id:0:3}
 checks=${@:-$prop}
 wt=/tmp/mut/$id; out=/tmp/mut-out/$id
 export GOFLAGS=-mod=mod GOPROXY=off GOSUMDB=off GOTOOLCHAIN=local
+if [ ! -d $wt ]; then
+  # recreate the scratch worktree from the kept patch
+  git -C /repo worktree prune
+  git -C /repo worktree add -q --detach $wt HEAD || exit 2
+  src=$out/patch.diff; [ -f $src ] || src=/verif/seeded/$id/patch.diff
+  git -C $wt apply $src || { echo "PATCH DOES NOT APPLY"; exit 2; }
+  mkdir -p $out; [ -d $out/demo ] || cp -r /verif/seeded/$id/demo $out/demo 2>/dev/null; [ -f $out/patch.diff ] || cp $src $out/patch.diff; [ -f $out/NOTES.md ] || cp /verif/seeded/$id/NOTES.md $out/ 2>/dev/null
+fi
 cd $wt || exit 2
 echo "== $id: files changed: $(git diff --stat | tail -1)"
 git diff > $out/patch.check.diff
